@@ -201,8 +201,8 @@ func (in *Interp) runInit(pkg *ssa.Package, done map[*ssa.Package]bool) {
 		defer func() {
 			if r := recover(); r != nil {
 				if pe, ok := r.(pathEnd); ok {
-					if debugMode {
-						fmt.Fprintf(os.Stderr, "gosx: init %s: %s %s (ignored)\n", pkg.Pkg.Path(), pe.Kind, pe.Msg)
+					if debugMode || strings.Contains(pkg.Pkg.Path(), "tdewolff") {
+						fmt.Fprintf(os.Stderr, "gosx: init %s: %s %s (rest of this init skipped)\n", pkg.Pkg.Path(), pe.Kind, pe.Msg)
 					}
 					return
 				}
